@@ -285,14 +285,25 @@ int main(int argc, char** argv) {
   double t0 = vf::now_s();
   std::vector<int> labels = vf::parse_ints(a.get("labels", "0,1,2"));
   std::vector<double> F;
-  for (int x : vf::parse_ints(a.get("F", HAS_FILT ? "0,1,2" : "0"))) F.push_back(x);
+  auto parse_F = [](const std::string& str) {
+    std::vector<double> r;
+    size_t i = 0;
+    while (i <= str.size()) {
+      size_t j = str.find(',', i);
+      if (j == std::string::npos) j = str.size();
+      std::string t = str.substr(i, j - i);
+      if (!t.empty()) r.push_back(t == "inf" ? INF : atof(t.c_str()));
+      i = j + 1;
+    }
+    return r;
+  };
+  F = parse_F(a.get("F", HAS_FILT ? "0,1,2" : "0"));
   if (!HAS_FILT) F = {0};
   Driver d;
   if (!a.replay.empty()) {
     auto kv = vf::parse_kv(a.replay);
     labels = vf::parse_ints(kv["labels"]);
-    F.clear();
-    for (int x : vf::parse_ints(kv["F"])) F.push_back(x);
+    F = parse_F(kv["F"]);
     d.init(labels, F, a.geti("graphs", 1));
     std::vector<int> h = vf::parse_ints(kv["ops"]);
     // every prefix, so that a replay shows the first step that goes wrong
